@@ -2,6 +2,7 @@ package condition
 
 import (
 	"errors"
+	"reflect"
 	"strings"
 	"sync"
 
@@ -109,6 +110,54 @@ func sqlEqualityOptions(tolerant bool) []expr.Option {
 		expr.Function("__sql_eq", eq, resultType),
 		expr.Function("__sql_ne", ne, resultType),
 		expr.Patch(sqlEqualityPatcher{}),
+	}
+}
+
+// Index access on a value that is not an array.
+//
+// expr-lang indexes strings: for arr = "notarr" the element arr[1] is the byte
+// 'o' (111), so `arr[1] > 7` accepted the row. An index applied to anything but
+// an array or a map is NULL (docs/NESTED_FIELD_ACCESS.md), as it already is in
+// the select list. Bracket access is therefore compiled as a call that checks
+// the parent first; every other case is expr-lang's own member access.
+
+// fetchMember is expr-lang's member access, except that an element of a string
+// is NULL.
+func fetchMember(parent, property any) any {
+	if reflect.Indirect(reflect.ValueOf(parent)).Kind() == reflect.String {
+		return nil
+	}
+	return runtime.Fetch(parent, property)
+}
+
+type sqlIndexPatcher struct{}
+
+func (sqlIndexPatcher) Visit(node *ast.Node) {
+	mn, ok := (*node).(*ast.MemberNode)
+	if !ok || mn.Method || mn.Optional {
+		return
+	}
+	if _, named := mn.Property.(*ast.StringNode); named {
+		return // a.b / a['b']: fails on a string parent, which the tolerant variant turns into NULL
+	}
+	ast.Patch(node, &ast.CallNode{
+		Callee:    &ast.IdentifierNode{Value: "__sql_index"},
+		Arguments: []ast.Node{mn.Node, mn.Property},
+	})
+}
+
+// sqlIndexOptions returns the compile options for the normal program. A failing
+// access (NULL parent, index out of range, ...) fails the program as before and
+// the row is decided by the tolerant variant.
+func sqlIndexOptions() []expr.Option {
+	return []expr.Option{
+		expr.Function("__sql_index", func(params ...any) (any, error) {
+			if len(params) != 2 {
+				return nil, errors.New("__sql_index requires 2 parameters")
+			}
+			return fetchMember(params[0], params[1]), nil
+		}, new(func(any, any) any)),
+		expr.Patch(sqlIndexPatcher{}),
 	}
 }
 
@@ -299,7 +348,7 @@ func nullSafeComparisonOptions() []expr.Option {
 				res, err = nil, nil // scalar parent, index out of range, ...
 			}
 		}()
-		return runtime.Fetch(params[0], params[1]), nil
+		return fetchMember(params[0], params[1]), nil
 	}, new(func(any, any) any)))
 	for op, name := range nullSafeComparisonFuncs {
 		op := op
